@@ -171,6 +171,10 @@ def callPrim (name : String) (args : List Value) (st : State) : PRes (Value × S
   | "empty?" => arg1 (fun a => do let n ← vlength st.heap a; pure (.bool (n == 0)))
   | "identity" => arg1 (fun a => .ok a)
   | "math/abs" => arg1 (fun a => do let x ← asNum a; pure (.num x.abs))
+  | "next" => match args with
+    | [ds] => pure1 (vnext st.heap ds .nil)
+    | [ds, k] => pure1 (vnext st.heap ds k)
+    | _ => .rt
   | "error" => match args with | [a] => .user a | _ => .rt
   | n => .unsup ("core function " ++ n)
 
